@@ -698,39 +698,72 @@ func c16loops(c *Ctx) {
 			n++
 			body := engine.LoopBody(h)
 			key := c.name(f) + "|interval-loop"
-			bad := ""
-			for b := range body {
-				if b == h {
-					continue
-				}
-				for _, s := range b.Succs {
-					if body[s] {
-						continue
-					}
-					// exit from the body that is not via the header: must be a return of its own,
-					// not a jump to the code after the loop (break)
-					isLoopExit := false
-					for _, hs := range h.Succs {
-						if hs == s && !body[hs] {
-							isLoopExit = true
-						}
-					}
-					if isLoopExit || len(s.Instrs) == 0 {
-						bad = P.Pos(firstPosOf(b))
-						continue
-					}
-					switch s.Instrs[len(s.Instrs)-1].(type) {
-					case *ssa.Return, *ssa.Panic:
-					default:
-						bad = P.Pos(firstPosOf(b))
-					}
-				}
-			}
+			bad := loopEarlyExit(P, h, body)
 			R.Check(bad == "", "R16.4", key, P.Pos(firstPosOf(h)), "the loop over the set's intervals is left only by exhaustion or return",
 				"the loop over the message-set intervals can be left early ("+bad+") without returning: members written later in the set are ignored, so the result depends on the order of the set")
 		}
 	}
 	R.Min("R16.4", "loops over resolved intervals", n, 4)
+}
+
+// loopEarlyExit: position of an exit from the loop body that is neither exhaustion (through the header)
+// nor a return/panic of its own - a `break` or a jump past the loop; "" if there is none.
+func loopEarlyExit(P *engine.Prog, h *ssa.BasicBlock, body map[*ssa.BasicBlock]bool) string {
+	bad := ""
+	for b := range body {
+		if b == h {
+			continue
+		}
+		for _, s := range b.Succs {
+			if body[s] {
+				continue
+			}
+			isLoopExit := false
+			for _, hs := range h.Succs {
+				if hs == s && !body[hs] {
+					isLoopExit = true
+				}
+			}
+			if isLoopExit || len(s.Instrs) == 0 {
+				bad = P.Pos(firstPosOf(b))
+				continue
+			}
+			switch s.Instrs[len(s.Instrs)-1].(type) {
+			case *ssa.Return, *ssa.Panic:
+			default:
+				bad = P.Pos(firstPosOf(b))
+			}
+		}
+	}
+	return bad
+}
+
+// exhaustiveLoopsOver (shared by R14.6 / R15.5): every loop of f that reads the elements of a slice
+// satisfying fromSrc is left only by exhaustion or return.
+func (c *Ctx) exhaustiveLoopsOver(rule string, f *ssa.Function, what string, fromSrc func(ssa.Value) bool, explain string) int {
+	P, R := c.P, c.R
+	n := 0
+	for _, h := range f.Blocks {
+		body := engine.LoopBody(h)
+		if body == nil {
+			continue
+		}
+		reads := false
+		for b := range body {
+			for _, in := range b.Instrs {
+				if ia, ok := in.(*ssa.IndexAddr); ok && engine.AnyBackward(ia.X, engine.FlowOpts{Loads: true}, fromSrc) {
+					reads = true
+				}
+			}
+		}
+		if !reads {
+			continue
+		}
+		n++
+		bad := loopEarlyExit(P, h, body)
+		R.Check(bad == "", rule, c.name(f)+"|loop over "+what, P.Pos(firstPosOf(h)), "every element is visited (exits: exhaustion or return)", "the loop over "+what+" can be left early ("+bad+") without returning: "+explain)
+	}
+	return n
 }
 
 func firstPosOf(b *ssa.BasicBlock) token.Pos {
